@@ -257,6 +257,18 @@ def step (st : St) (line : String) : St × String :=
           (List.range b).all (fun n => p.1.lookup n == p.2.lookup n))
       (st, s!"{f.ok} {okStore} {okSecs} {okHist}")
     | _, _, _ => (st, "bad-op")
+  | ["q.chain"] =>
+    -- executable hypothesis of C02_chain_checked for this file, and its conclusion against the loaded document
+    match st.doc with
+    | some d =>
+      match findXref 4096 st.data with
+      | .ok start =>
+        match chainOf ⟨st.data, st.secs, st.objs⟩ (st.secs.length + 2) (some start) with
+        | some (ps, l) =>
+          (st, s!"{nodupNat ps} {decide (ps.length ≤ st.secs.length + 2)} {l.length == d.length && (l.map (·.2.prev)) == (d.map (·.2.prev))}")
+        | none => (st, "no-chain")
+      | .error _ => (st, "no-startxref")
+    | none => (st, "bad-op")
   | ["q.tail", ts, eol, w, n] =>
     let eol? : Option LineEol := if eol == "lf" then some .lf else if eol == "crlf" then some .crlf else if eol == "cr" then some .cr else none
     let ts? : Option TailStyle := if ts == "normal" then some .plain else if ts == "noeol" then some .noeol
